@@ -70,6 +70,7 @@ fn main() {
             "C09" => props::c09::replay(&file),
             "C10" => props::c10::replay(&file),
             "C11" => props::c11::replay(&file),
+            "C12" => props::c12::replay(&file),
             "C14" => props::c14::replay(&file),
             _ => {
                 eprintln!("replay is not supported for {id}");
